@@ -152,7 +152,7 @@ struct Run<'a> {
     sentinel_n: usize,
 }
 
-const T: Duration = Duration::from_secs(15);
+const T: Duration = Duration::from_secs(40);
 
 impl<'a> Run<'a> {
     fn wait(&mut self, what: &str, pred: impl FnMut(&[WFrame]) -> bool) -> Result<Vec<WFrame>, Fail> {
